@@ -366,15 +366,18 @@ func (x *Exec) condWait(cfg *Config, cv Val, pos token.Pos) {
 // goroutines, channels (minimal models)
 // ---------------------------------------------------------------------------
 
-// spawn: a goroutine whose body starts by blocking on a context's Done
-// channel is remembered as a watcher and run when that context is cancelled on
-// this path (its effect is asynchronous in reality; for the ghost wake-up
-// accounting a pending Broadcast counts as delivered). Other goroutines are
-// not followed.
+// spawn: a goroutine whose body starts by blocking on channels (a receive or
+// a blocking select) is remembered as a watcher; it is run, inline, when this
+// function closes one of those channels or cancels the context whose Done
+// channel it waits on. (Its effect is asynchronous in reality; for the ghost
+// wake-up accounting a pending Broadcast counts as delivered. A watcher that
+// becomes ready through an external event - the caller's context ending - can
+// run at any time: that is interference, covered by the lock invariant.)
+// Other goroutines are not followed.
 func (x *Exec) spawn(cfg *Config, f *Frame, tg target, args []Val, pos token.Pos) {
-	if tg.fn != nil && x.isCtxWatcher(tg.fn) {
+	if tg.fn != nil && x.isWatcherShape(tg.fn) {
 		cfg.st.watchers = append(cfg.st.watchers, &watcher{tg: tg, args: args})
-		x.usedTrusted["goroutine `<-ctx.Done(); cond.Broadcast()` modelled as running when its context is cancelled by this function"] = true
+		x.usedTrusted["goroutines that first block on a channel are modelled as running when this function closes that channel / cancels that context"] = true
 		return
 	}
 	if x.c != nil && x.c.Options["spawn-requires"] != "" {
@@ -405,85 +408,115 @@ func (x *Exec) spawn(cfg *Config, f *Frame, tg target, args []Val, pos token.Pos
 	x.note("go statement at %s: spawned body %s is not verified as part of this function", x.posOf(pos), tg.name)
 }
 
-// isCtxWatcher: the first channel operation of the function is a receive from
-// a Context.Done() channel and it has a single block.
-func (x *Exec) isCtxWatcher(fn *ssa.Function) bool {
-	if len(fn.Blocks) != 1 {
+// isWatcherShape: a function literal whose first effectful instruction is a
+// channel receive or a blocking select.
+func (x *Exec) isWatcherShape(fn *ssa.Function) bool {
+	if fn.Parent() == nil || len(fn.Blocks) == 0 {
 		return false
 	}
-	sawDone := false
 	for _, in := range fn.Blocks[0].Instrs {
 		switch i := in.(type) {
-		case *ssa.Call:
-			if i.Common().IsInvoke() && i.Common().Method.Name() == "Done" {
-				sawDone = true
-			}
+		case *ssa.DebugRef, *ssa.FieldAddr, *ssa.Field, *ssa.Alloc, *ssa.MakeInterface, *ssa.ChangeType, *ssa.Extract:
 		case *ssa.UnOp:
 			if i.Op == token.ARROW {
-				return sawDone
+				return true
 			}
+		case *ssa.Select:
+			return i.Blocking
+		case *ssa.Call:
+			if !(i.Common().IsInvoke() && i.Common().Method.Name() == "Done") {
+				return false
+			}
+		default:
+			return false
 		}
 	}
 	return false
 }
 
-// runWatchers executes, inline, every watcher goroutine whose context is now
-// cancelled.
-func (x *Exec) runWatchers(cfg *Config, f *Frame) bool {
+// triggerWatchers: a channel was closed / a context cancelled by this
+// function; every remembered goroutine gets a chance to run.
+func (x *Exec) triggerWatchers(cfg *Config, f *Frame) {
+	cfg.pendingW = nil
 	for _, w := range cfg.st.watchers {
-		if w.ran {
-			continue
+		if !w.ran {
+			cfg.pendingW = append(cfg.pendingW, w)
 		}
-		ctxv := x.watcherCtx(cfg, w)
-		if ctxv == nil {
-			continue
-		}
-		if x.doneNow(cfg.st, *ctxv).S != "true" {
-			continue
-		}
-		w.ran = true
-		body := w.tg.fn
-		nf := &Frame{fn: body, regs: map[ssa.Value]Val{}, block: body.Blocks[0], depth: f.depth + 1, isDefer: true}
-		x.indexDebug(body)
-		for k, p := range body.Params {
+	}
+	x.nextWatcher(cfg, f.depth)
+}
+
+func (x *Exec) nextWatcher(cfg *Config, depth int) {
+	if len(cfg.pendingW) == 0 {
+		return
+	}
+	w := cfg.pendingW[0]
+	cfg.pendingW = cfg.pendingW[1:]
+	w.ran = true
+	body := w.tg.fn
+	nf := &Frame{fn: body, regs: map[ssa.Value]Val{}, block: body.Blocks[0], depth: depth + 1, isDefer: true, watcher: w}
+	x.indexDebug(body)
+	for k, p := range body.Params {
+		if k < len(w.args) {
 			nf.regs[p] = w.args[k]
 		}
-		for k, fv := range body.FreeVars {
+	}
+	for k, fv := range body.FreeVars {
+		if k < len(w.tg.binds) {
 			nf.regs[fv] = x.coerceParam(cfg, w.tg.binds[k], fv.Type())
 		}
-		cfg.frames = append(cfg.frames, nf)
-		return true
 	}
-	return false
+	cfg.frames = append(cfg.frames, nf)
 }
 
-// watcherCtx finds the context value a watcher waits on: the captured
-// variable (or parameter) of interface type context.Context.
-func (x *Exec) watcherCtx(cfg *Config, w *watcher) *Term {
-	fn := w.tg.fn
-	for k, fv := range fn.FreeVars {
-		el := derefType(fv.Type())
-		if el != nil && typeName(el) == "context.Context" && k < len(w.tg.binds) {
-			if a, ok := w.tg.binds[k].(AddrV); ok {
-				t := Select(x.heapGet(cfg.st, a.Arr, SArr(SInt, SInt)), a.Base)
-				return &t
-			}
-		}
+// abortWatcher: the goroutine's first blocking operation is not enabled by
+// anything this function did; it stays parked.
+func (x *Exec) abortWatcher(cfg *Config, f *Frame) {
+	f.watcher.ran = false
+	cfg.frames = cfg.frames[:len(cfg.frames)-1]
+	x.nextWatcher(cfg, f.depth-1)
+}
+
+func (x *Exec) chanClosed(st *State, ch Term) Term {
+	return Select(x.heapGet(st, "$closed", SArr(SInt, SBool)), ch)
+}
+
+// readyNow: can a receive from ch proceed because of something known on this
+// path (closed by this function, or a context cancelled by this function)?
+func (x *Exec) readyNow(cfg *Config, ch Term) Term {
+	if strings.HasPrefix(ch.S, "(ctx.donechan ") {
+		ctx := Term{ch.S[len("(ctx.donechan ") : len(ch.S)-1], SInt}
+		return x.doneNow(cfg.st, ctx)
 	}
-	for k, p := range fn.Params {
-		if typeName(p.Type()) == "context.Context" && k < len(w.args) {
-			t := x.tv(w.args[k])
-			return &t
-		}
-	}
-	return nil
+	return x.chanClosed(cfg.st, ch)
 }
 
 // selectOp models a non-blocking select over receive cases on context Done
 // channels: a case is taken iff its channel is ready.
 func (x *Exec) selectOp(cfg *Config, f *Frame, i *ssa.Select) ([]*Config, bool) {
 	if i.Blocking {
-		unsupported("blocking select")
+		if f.watcher == nil {
+			unsupported("blocking select")
+		}
+		// a parked goroutine: take a case this function has enabled
+		rt := i.Type().(*types.Tuple)
+		for k, stt := range i.States {
+			if stt.Dir != types.RecvOnly {
+				continue
+			}
+			ch := x.tv(x.get(f, stt.Chan))
+			if x.readyNow(cfg, ch).S == "true" {
+				tup := TupV{TV{T: x.intLit(int64(k), x.intSort(types.Typ[types.Int]))}, TV{T: False}}
+				for j := 2; j < rt.Len(); j++ {
+					tup = append(tup, x.zeroOf(rt.At(j).Type()))
+				}
+				f.regs[i] = tup
+				f.idx++
+				return nil, false
+			}
+		}
+		x.abortWatcher(cfg, f)
+		return nil, false
 	}
 	if len(i.States) != 1 || i.States[0].Dir != types.RecvOnly {
 		unsupported("select with %d cases", len(i.States))
@@ -525,11 +558,29 @@ func (x *Exec) recvOp(cfg *Config, f *Frame, i *ssa.UnOp) Val {
 			return x.zeroOf(i.Type())
 		}
 	}
+	if x.readyNow(cfg, ch).S == "true" {
+		if i.CommaOk {
+			return TupV{x.zeroOf(i.Type().(*types.Tuple).At(0).Type()), TV{T: False}}
+		}
+		return x.zeroOf(i.Type())
+	}
+	if f.watcher != nil {
+		x.abortWatcher(cfg, f)
+		return abortedVal{}
+	}
 	unsupported("blocking channel receive")
 	return nil
 }
 
-func (x *Exec) closeChan(cfg *Config, ch Term, pos token.Pos) { unsupported("close(chan)") }
+type abortedVal struct{}
+
+func (x *Exec) closeChan(cfg *Config, ch Term, pos token.Pos) {
+	x.nilcheck(cfg, ch, "close of nil channel", pos)
+	closed := x.heapGet(cfg.st, "$closed", SArr(SInt, SBool))
+	x.oblige(cfg, "close-of-closed-channel", x.lockName(ch), Not(Select(closed, ch)), nil, pos)
+	cfg.st.heap["$closed"] = Store(closed, ch, True)
+	cfg.closedNow = true
+}
 
 // ---------------------------------------------------------------------------
 // guarded_by obligations (C13)
